@@ -515,10 +515,38 @@ func (g *bindGen) lay(s string) string {
 	return s[:i] + g.r.pick([]string{"\n", "\t", "\r\n", " -- c\n", " /* c */ ", "\n-- $T.x 'q\n", " /* ' */"}) + s[i+1:]
 }
 
+// wideSelect: a statement with very many output columns (into a map, plus a wide struct), and sometimes as
+// many inputs: alias and placeholder numbers with two and three digits.
+func (g *bindGen) wideSelect() bindCase {
+	r := g.r
+	n := []int{62, 63, 64, 65, 66, 127, 128, 129, 255, 256, 257}[r.intn(11)]
+	var cols []string
+	for i := 0; i < n; i++ {
+		cols = append(cols, fmt.Sprintf("c%d", i))
+	}
+	q := "SELECT (" + strings.Join(cols, ", ") + ") AS (&M.*)"
+	c := bindCase{samples: []any{sqlair.M{}}}
+	if r.chance(1, 2) {
+		q += ", &Wide.*"
+		c.samples = append(c.samples, Wide{})
+	}
+	q += " FROM t"
+	if r.chance(1, 2) {
+		q += " WHERE id IN ($IntSlice[:])"
+		c.samples = append(c.samples, IntSlice{})
+		c.args = append(c.args, make(IntSlice, n))
+	}
+	c.query = q
+	return c
+}
+
 func (g *bindGen) next1() bindCase {
 	r := g.r
 	if r.chance(1, 40) {
 		return g.bulkPair()
+	}
+	if r.chance(1, 100) {
+		return g.wideSelect()
 	}
 	p := &stmtPlan{types: map[string]bool{}, ins: map[string]bool{}}
 	var b strings.Builder
